@@ -64,6 +64,13 @@ def target_strategy():
     return st.one_of(base, base, base, comb, comb2)
 
 
+def f5_zone(spec):
+    """a combinator annotation together with another hook-owning annotation at the dispatched position"""
+    anns = [spec["target"]] + spec["siblings"] + spec["others"]
+    hooked = {R.canon(a) for a in anns if a[0] not in ("cls", "obj")}
+    return any(a[0] in ("union", "inter") for a in anns) and len(hooked) >= 2
+
+
 def has_dependent(t):
     if t[0] in ("union", "inter"):
         return any(has_dependent(m) for m in t[1])
@@ -246,7 +253,10 @@ def run_case(spec):
                                  f"ambiguity error", "C11:overlap-not-ambiguous")
                 elif out.kind == "ambiguous":
                     if len(holding) < 2:
-                        res.fail(f"value {vs} (2nd {sec}): ambiguity error but only {holding} hold", "C11:spurious-ambiguity")
+                        # between a Union / Intersection and another hook-owning type the order is not mirror-consistent
+                        # (F5): depending on set order the ranks tie instead of cycling
+                        res.fail(f"value {vs} (2nd {sec}): ambiguity error but only {holding} hold",
+                                 "C11:spurious-ambiguity-between-hook-owning-types" if f5_zone(spec) else "C11:spurious-ambiguity")
                 else:
                     sig = "C11:" + out.kind
                     if out.kind == "other" and "CycleError" in out.detail:
